@@ -59,7 +59,7 @@ pub fn unknown_sub(sub: &str) -> Check {
 
 /// Replays every committed regression input of this property (files /verif/replays/<ID>-*.json).
 pub fn replay_committed(ctx: &Ctx, entry: &Entry, rep: &mut Report) {
-    let dir = std::path::Path::new(crate::runner::VERIF_ROOT).join("replays");
+    let dir = crate::runner::verif_root().join("replays");
     let mut files: Vec<_> = match std::fs::read_dir(&dir) {
         Ok(rd) => rd
             .filter_map(|e| e.ok())
